@@ -207,6 +207,8 @@ def main(prop_id, tier, replay=None, only=None):
     mod = importlib.import_module(modname)
     known = load_known(prop_id)
     known_tags = set(e["tag"] for e in known if e.get("status") == "known")
+    # development aid (collecting distinct failures on a broken tree): never set by the registered commands
+    known_tags |= set(t for t in os.environ.get("VERIF_DEV_EXCLUDE_TAGS", "").split(",") if t)
 
     if replay:
         fails = replay_file(mod, replay, known_tags)
@@ -282,7 +284,8 @@ def main(prop_id, tier, replay=None, only=None):
                     else:
                         nfail = 3
                     if nfail:
-                        violations.append((path, msg))
+                        if path not in [v[0] for v in violations]:
+                            violations.append((path, msg))
                     else:
                         inconclusive.append("FLAKY %s: %s (replay %s passes 3x)" % (part.name, msg, path))
                     st.fail = None
